@@ -58,6 +58,38 @@ def gen_history(rng, length):
     return {'cls': 'django', 'cfg': cfg, 'ops': ops, 'state_every': 6}
 
 
+def exhaustive_small(n_ops):
+    """every sequence of n_ops calls over a small alphabet (one key, two versions, every timeout
+    class), the clock advancing 3 s per call, followed by the look-ups for both versions"""
+    import itertools
+    alpha = []
+    for t in ('d', 'n', 0, -5, 4):
+        alpha.append({'m': 'set', 'key': 'k', 'version': None, 'v': 5, 'timeout': t})
+    alpha += [
+        {'m': 'set', 'key': 'k', 'version': 2, 'v': 'two', 'timeout': 'n'},
+        {'m': 'add', 'key': 'k', 'version': None, 'v': 9, 'timeout': 'd'}, {'m': 'add', 'key': 'k', 'version': None, 'v': 9, 'timeout': 0},
+        {'m': 'touch', 'key': 'k', 'version': None, 'timeout': 'n'}, {'m': 'touch', 'key': 'k', 'version': None, 'timeout': 0},
+        {'m': 'touch', 'key': 'k', 'version': None, 'timeout': 4},
+        {'m': 'incr', 'key': 'k', 'version': None, 'delta': 1}, {'m': 'incr', 'key': 'k', 'version': None, 'delta': 2, 'via': 'decr'},
+        {'m': 'delete', 'key': 'k', 'version': None}, {'m': 'pop', 'key': 'k', 'version': None}, {'m': 'clear'}, {'m': 'expire'},
+    ]
+    hists = []
+    for deft in (300, 2, None):
+        for combo in itertools.product(range(len(alpha)), repeat=n_ops):
+            now = 1000
+            ops = []
+            for i in combo:
+                ops.append(dict(alpha[i], now=now))
+                now += 3
+            for ver in (None, 2):
+                ops.append({'m': 'get', 'now': now, 'key': 'k', 'version': ver})
+                ops.append({'m': 'has_key', 'now': now, 'key': 'k', 'version': ver})
+            ops.append({'m': 'incr', 'now': now, 'key': 'k', 'version': None, 'delta': 1})
+            hists.append({'cls': 'django', 'cfg': {'mfs': 8, 'shards': 2, 'prefix': 'p', 'version': 1, 'deftimeout': deft},
+                          'ops': ops, 'state_every': 0})
+    return hists
+
+
 def acceptor(hist, io):
     """reference from the contract text; the instant now == expiry is left open"""
     cfg = hist['cfg']
@@ -224,7 +256,7 @@ def run(tier, seed, rng, known, replay):
     if replay:
         return base.replay_file(replay, 'C19', ('result', 'state'), acceptor)
     n = 300 if tier == 'quick' else 4000
-    hists = [gen_history(rng, rng.choice([10, 30, 60])) for _ in range(n)]
+    hists = exhaustive_small(2 if tier == 'quick' else 3) + [gen_history(rng, rng.choice([10, 30, 60])) for _ in range(n)]
     r = base.check_histories('C19', hists, ('result', 'state'), acceptor=acceptor, known=known, runner=layers.layer_chunk)
     dist, distinct = base.op_distribution(hists, r['impl_out'])
     violations = list(r['violations'])
